@@ -189,6 +189,7 @@ fn cmp_read(api: &'static str, case: &mut Case, slice: Result<usize, CErr>, read
                 case.fail(format!("read-differs-from-slice:{}:consumed", api), format!("{}: reader consumed {} bytes, the header has {}", api, pos, n));
             }
             case.reach("read-ok");
+            case.reach(format!("read-ok:{}", api));
         }
         (Err(CErr::Len { .. }), Err(RE::Eof)) => case.reach("read-eof"),
         (Err(e @ CErr::Content { .. }), Err(RE::Err(e2))) => {
@@ -217,6 +218,7 @@ fn cmp_limited(api: &'static str, case: &mut Case, slice: Result<usize, CErr>, r
                 case.fail(format!("read-differs-from-slice:{}:consumed", api), format!("{}: limited reader consumed {} bytes, the header has {}", api, pos, n));
             }
             case.reach("limited-ok");
+            case.reach(format!("read-ok:{}", api));
         }
         (Err(CErr::Len { .. }), Err(RE::Err(CErr::Len { .. }))) | (Err(CErr::Len { .. }), Err(RE::Eof)) => case.reach("limited-len-err"),
         (Err(e @ CErr::Content { .. }), Err(RE::Err(e2 @ CErr::Content { .. }))) => {
@@ -871,7 +873,20 @@ impl Check for C06 {
         }
     }
     fn expect_reach(&self, _tier: Tier) -> Vec<String> {
-        ["pair:ethernet~ether_type", "pair:sll~ether_type", "pair:ether_type~ip", "pair:ip~ipv4", "pair:ip~ipv6", "read-ok", "read-eof", "read-content-err", "read-len-err", "limited-ok", "limited-len-err"].iter().map(|s| s.to_string()).collect()
+        ["pair:ethernet~ether_type", "pair:sll~ether_type", "pair:ether_type~ip", "pair:ip~ipv4", "pair:ip~ipv6", "read-ok", "read-eof", "read-content-err", "read-len-err", "limited-ok", "limited-len-err"]
+            .iter()
+            .map(|s| s.to_string())
+            // every reader door must have been compared on at least one header that both doors accept
+            .chain(
+                [
+                    "ArpPacket::read", "Ethernet2Header::read", "Icmpv4Header::read", "Icmpv6Header::read", "IpAuthHeader::read", "IpAuthHeader::read_limited", "Ipv4Extensions::read", "Ipv4Header::read",
+                    "Ipv6Extensions::read", "Ipv6Extensions::read_limited", "Ipv6FragmentHeader::read", "Ipv6FragmentHeader::read_limited", "Ipv6Header::read", "Ipv6Header::skip_all_header_extensions",
+                    "Ipv6Header::skip_header_extension", "Ipv6RawExtHeader::read", "Ipv6RawExtHeader::read_limited", "LinuxSllHeader::read", "MacsecHeader::read", "SingleVlanHeader::read", "TcpHeader::read", "UdpHeader::read",
+                ]
+                .iter()
+                .map(|s| format!("read-ok:{}", s)),
+            )
+            .collect()
     }
     fn run_unit(&self, tier: Tier, u: u64, ctx: &mut Ctx) {
         sweep::run_unit(tier, u, ctx, &|door, bytes, _shape, case| check_case(door, bytes, case));
